@@ -50,7 +50,7 @@ def shards(quick):
 
 def run(ctx):
     shs = shards(ctx.quick)
-    shs, res, stages, complete = L.explore(ctx, shs, increments=1 if ctx.quick else 2, reserve=45 if ctx.quick else 60)
+    shs, res, stages, complete = L.explore(ctx, shs, increments=1 if ctx.quick else 2, reserve=60 if ctx.quick else 60)
     if any(r is None for r in res):
         common.log("C17: not even the first bound completed")
         raise SystemExit(2)
